@@ -248,8 +248,45 @@ fn do_resolve<Fd: AsFd, P: AsRef<Path>>(
         .into();
 
         let part = match part.as_bytes() {
-            // If we hit an empty component, we need to treat it as though it is
-            // "." so that trailing "/" and "//" components on a non-directory
+            // Trailing "/"s (empty components with nothing but empty components
+            // left to walk after them) only require that what we have reached
+            // is a directory. Unlike "." they are not components that get
+            // looked up -- the kernel handles them with LOOKUP_DIRECTORY -- so,
+            // unlike the openat(".") below, they must not require search
+            // permission on that directory.
+            // (If we have not walked anywhere yet we still go through "." below,
+            // so that the handle we return is never our dup of the root handle.)
+            b"" if remaining_components.iter().all(|p| p.is_empty())
+                && !Rc::ptr_eq(&current, &root) =>
+            {
+                let mode = (*current)
+                    .metadata()
+                    .wrap("fstat of component before trailing slash")?
+                    .mode();
+                if mode & libc::S_IFMT != libc::S_IFDIR {
+                    return Ok(PartialLookup::Partial {
+                        handle: current,
+                        remaining,
+                        last_error: ErrorImpl::OsError {
+                            operation: "emulated trailing slash".into(),
+                            source: IOError::from_raw_os_error(libc::ENOTDIR),
+                        }
+                        .into(),
+                    });
+                }
+                // Same symlink stack bookkeeping as for a "." component.
+                if let Some(ref mut stack) = symlink_stack {
+                    stack
+                        .pop_part(OsStr::new("."))
+                        .map_err(|err| ErrorImpl::BadSymlinkStackError {
+                            description: "walking into component".into(),
+                            source: err,
+                        })?;
+                }
+                continue;
+            }
+            // If we hit any other empty component, we need to treat it as
+            // though it is "." so that "//" components on a non-directory
             // correctly return the right error code.
             b"" => ".".into(),
             // For "." component we don't touch expected_path, but we do try to
